@@ -24,6 +24,14 @@
 // consumers and the recordings through lal's RTP -> RTMP remuxer; they are
 // attributed by content (units of that incarnation only, none twice).
 //
+// More incarnation kinds (inputs_test.go): RTMP relay pull from a stub origin
+// (ends: origin close, CtrlStopRelayPull, kick, idle sweep, shutdown) and
+// GB28181 in TCP mode (ends: disconnect + session timeout, kick, timeout,
+// shutdown).  In one case of five the dummy-audio filter is enabled.  After the
+// last consumer has left (and after ServerManager.Dispose) the goroutines that
+// run lal / naza code and the descriptors of the process must be back at the
+// snapshot taken before the first session (run_test.go baselineCheck).
+//
 // L3 part (l3_test.go): real listeners and the real 1 s ticker of
 // ServerManager.RunLoop — group removal, idle disconnect, goroutine /
 // descriptor baseline.
@@ -618,6 +626,6 @@ func uniq(in []string) []string {
 func TestInputEnd(t *testing.T) {
 	pbt.Run(t, pbt.Spec[Case]{
 		ID: "C16", Name: "input-end", Gen: genCase, Run: run, Classify: classify,
-		Quick: 400, Thorough: 2500, Isolate: true,
+		Quick: 220, Thorough: 2000, Isolate: true,
 	})
 }
